@@ -1,18 +1,21 @@
 import Arimaa.Props.C03
 import Arimaa.Lemmas.RsAgreeStep
+import Arimaa.Gen.Bridge.GameState_take_action
 
 /-!
 # C03 — the property at the level of the REGENERATED code
 
 `Gen/Rs.lean` is written by `tools/rs2lean2.py` from the current text of engine.rs / zobrist.rs on every
-run; `Lemmas/RsAgree*.lean` prove that each regenerated function equals
-`Res.guard (hand panic guard) (hand total function)`.  This file puts the agreement theorems of the
-functions C03 rests on into the property's proof closure and restates them as one named obligation
-(`C03_code_agrees`), plus corollaries that speak about the regenerated functions directly.  A change of
-the Rust text of one of these functions breaks an obligation here without any test having to find the input.
+run.  `Gen/Bridge/<fn>.lean` (generated) proves `@Rs.fn = @RsBase.fn` — the current text against the
+baseline text — and `Lemmas/RsAgree*.lean` prove that each baseline function equals
+`Res.guard (hand panic guard) (hand total function)`.  This file puts both, for the functions C03 rests
+on, into the property's proof closure and restates them as one named obligation (`C03_code_agrees`) about
+the CURRENT functions, plus corollaries that speak about them directly.  A change of the Rust text of one
+of these functions that alters behaviour breaks an obligation here without any test having to find the input.
+(written by tools/mkrprops.py)
 -/
 namespace Arimaa
-open Gen GameState Arimaa.Gen.Rs Arimaa.Rt
+open Gen GameState Arimaa.Gen.Rs Arimaa.Rt Arimaa.Gen.Bridge
 
 theorem C03_value_of_ok {α : Type} {x : Res α} {p : Bool} {v w : α} (h : x = Res.guard p v) (hx : x = .ok w) :
     p = false ∧ w = v := by
@@ -20,16 +23,17 @@ theorem C03_value_of_ok {α : Type} {x : Res α} {p : Bool} {v w : α} (h : x = 
   obtain ⟨hp, hv⟩ := Res.guard_eq_ok.mp hx
   exact ⟨hp, hv.symm⟩
 
-/-- the agreement theorems C03 rests on, as one obligation -/
+/-- the agreement theorems C03 rests on, about the CURRENT functions, as one obligation -/
 theorem C03_code_agrees :
     (∀ (s : GameState) (a : Action), GameState_take_action s a = Res.guard (s.takeActionPanics a) (s.takeAction a)) :=
-  RsAgree.take_action_eq
+  (by simp only [bridge_GameState_take_action]; exact RsAgree.take_action_eq)
 
 /-- **C03 for the code as it is now**: a step before the fourth, as the regenerated `take_action` computes it,
 keeps the side and the move number and raises the step counter by one -/
 theorem C03_code_step_after_move (s s' : GameState) (pp : PlayPhase) (sq : Nat) (d : Dir)
     (hph : s.phase = .play pp) (hlt : pp.step < 3) (h : GameState_take_action s (.move sq d) = .ok s') :
     s'.p1Turn = s.p1Turn ∧ s'.step = s.step + 1 ∧ s'.moveNo = s.moveNo := by
+  simp only [bridge_GameState_take_action] at h
   have := (C03_value_of_ok (RsAgree.take_action_eq s _) h).2
   subst this
   obtain ⟨pp', _, h1, _, h3, h4, _⟩ := C03_step_after_move s pp sq d hph hlt
